@@ -166,6 +166,9 @@ type Machine struct {
 	inputs      map[string]Value // named symbolic inputs created by the harness API
 	inputOrder  []string
 	splitMemo   map[splitKey][2]*Term
+	cliSt        *cliState
+	fs           map[string]*fsEntry
+	notExistErrs map[*Value]bool
 }
 
 func (m *Machine) addPC(t *Term) {
